@@ -322,9 +322,58 @@ macro_rules! ad_read {
     }};
 }
 
+/// A storage-less seekable byte source: byte `i` is a fixed function of `i`, the length is
+/// unbounded. Lets the word-position arithmetic be exercised at positions beyond 2^32 bytes.
+pub struct VirtSrc {
+    pos: u64,
+}
+
+pub fn virt_byte(i: u64) -> u8 {
+    (i.wrapping_mul(0x9E37_79B9_7F4A_7C15) >> 56) as u8
+}
+
+impl Read for VirtSrc {
+    fn read(&mut self, buf: &mut [u8]) -> std::io::Result<usize> {
+        for (k, b) in buf.iter_mut().enumerate() {
+            *b = virt_byte(self.pos.wrapping_add(k as u64));
+        }
+        self.pos = self.pos.wrapping_add(buf.len() as u64);
+        Ok(buf.len())
+    }
+}
+
+impl std::io::Seek for VirtSrc {
+    fn seek(&mut self, from: std::io::SeekFrom) -> std::io::Result<u64> {
+        let p: Option<u64> = match from {
+            std::io::SeekFrom::Start(n) => Some(n),
+            std::io::SeekFrom::Current(d) => self.pos.checked_add_signed(d),
+            std::io::SeekFrom::End(_) => None,
+        };
+        match p {
+            Some(p) => {
+                self.pos = p;
+                Ok(p)
+            }
+            None => Err(std::io::Error::new(std::io::ErrorKind::InvalidInput, "invalid seek")),
+        }
+    }
+}
+
 macro_rules! ad_seek {
     ($W:ty, $data:expr, $ops:expr) => {{
-        let mut ad = WordAdapter::<$W, _>::new(Cursor::new($data));
+        ad_seek_on!($W, Cursor::new($data), $ops)
+    }};
+}
+
+macro_rules! ad_vseek {
+    ($W:ty, $ops:expr) => {{
+        ad_seek_on!($W, VirtSrc { pos: 0 }, $ops)
+    }};
+}
+
+macro_rules! ad_seek_on {
+    ($W:ty, $backend:expr, $ops:expr) => {{
+        let mut ad = WordAdapter::<$W, _>::new($backend);
         let mut outs: Vec<String> = vec![];
         for op in $ops.iter() {
             match op.as_slice() {
@@ -392,6 +441,10 @@ pub fn run_ad(toks: &[&str], body: &str) -> String {
         "seek" => {
             let ops = split_ops(body);
             by_width!(w, ad_seek, data.clone(), ops)
+        }
+        "vseek" => {
+            let ops = split_ops(body);
+            by_width!(w, ad_vseek, ops)
         }
         _ => "bad-request".into(),
     }
